@@ -1,31 +1,73 @@
 // ---- prelude/batchspecs.rs: assumed contracts of the automaton / regex-set builders (expression holes)
 
-// AhoCorasickBuilder (DFA kind, optionally ASCII case-insensitive): assumed to build without error for any needle list,
-// and the automaton reports, under overlapping iteration, exactly the occurrences of its needles (ac_of)
+// AhoCorasickBuilder, modelled call by call so that the chain in the real code stays the real code: `new()` starts
+// case-sensitive, `ascii_case_insensitive(yes)` sets the flag, `kind(..)` keeps it, and `build(needles)` is ASSUMED to
+// succeed and to return an automaton that reports, under overlapping iteration, exactly the occurrences of its needles
+// under that flag (ac_of).  Only `build` carries an assumption about aho-corasick itself.
+#[verifier::external_type_specification]
 #[verifier::external_body]
-pub fn build_ac(needles: Vec<String>, ci: bool) -> (r: AhoCorasick)
-    ensures ac_of(&r, texts(needles@), ci),
-{
-    AhoCorasickBuilder::new()
-        .ascii_case_insensitive(ci)
-        .kind(Some(AhoCorasickKind::DFA))
-        .build(needles)
-        .expect("failed to build dfa")
+pub struct ExAhoCorasickBuilder(AhoCorasickBuilder);
+#[verifier::external_type_specification]
+pub struct ExAhoCorasickKind(AhoCorasickKind);
+#[verifier::external_type_specification]
+#[verifier::external_body]
+pub struct ExAcBuildError(aho_corasick::BuildError);
+
+pub uninterp spec fn acb_ci(b: AhoCorasickBuilder) -> bool;
+pub uninterp spec fn needle_texts<I>(p: I) -> Seq<Seq<char>>;
+pub broadcast axiom fn axiom_needle_texts_vec(v: Vec<String>)
+    ensures #[trigger] needle_texts::<Vec<String>>(v) == texts(v@);
+
+pub assume_specification[ AhoCorasickBuilder::new ]() -> (b: AhoCorasickBuilder)
+    ensures acb_ci(b) == false;
+pub assume_specification<'a>[ AhoCorasickBuilder::ascii_case_insensitive ](b: &'a mut AhoCorasickBuilder, yes: bool) -> (r: &'a mut AhoCorasickBuilder)
+    ensures acb_ci(*final(b)) == yes, *r == *final(b);
+pub assume_specification<'a>[ AhoCorasickBuilder::kind ](b: &'a mut AhoCorasickBuilder, k: Option<AhoCorasickKind>) -> (r: &'a mut AhoCorasickBuilder)
+    ensures acb_ci(*final(b)) == acb_ci(*old(b)), *r == *final(b);
+pub assume_specification<I: IntoIterator<Item = P>, P: AsRef<[u8]>>[ AhoCorasickBuilder::build::<I, P> ](b: &AhoCorasickBuilder, patterns: I) -> (r: std::result::Result<AhoCorasick, aho_corasick::BuildError>)
+    ensures r is Ok && ac_of(&r->Ok_0, needle_texts::<I>(patterns), acb_ci(*b));
+
+// RegexSetBuilder, modelled call by call: `new(patterns)` records the pattern texts, `case_insensitive(yes)` the flag, and
+// `build()` is ASSUMED to succeed and to return a set whose member i accepts exactly what the regex built from pattern i
+// with that flag accepts (rs_of).  The regex LANGUAGE stays uninterpreted: regex_of(pattern, flag) is "the regex the
+// builder makes of that text", and a Regex remembers its text (regex_text).
+#[verifier::external_type_specification]
+#[verifier::external_body]
+pub struct ExRegexSetBuilder(RegexSetBuilder);
+#[verifier::external_type_specification]
+#[verifier::external_body]
+pub struct ExRegexError(regex::Error);
+
+pub uninterp spec fn regex_of(pattern: Seq<char>, insensitive: bool) -> Option<Regex>;
+pub uninterp spec fn regex_text(r: &Regex) -> Seq<char>;
+pub uninterp spec fn rsb_pats(b: RegexSetBuilder) -> Seq<Seq<char>>;
+pub uninterp spec fn rsb_ci(b: RegexSetBuilder) -> bool;
+pub uninterp spec fn pattern_texts<I>(p: I) -> Seq<Seq<char>>;
+pub broadcast axiom fn axiom_pattern_texts_vec(v: Vec<String>)
+    ensures #[trigger] pattern_texts::<Vec<String>>(v) == texts(v@);
+
+pub open spec fn pat_lang(p: Seq<char>, ci: bool, x: Seq<char>) -> bool {
+    regex_of(p, ci) is Some && regex_is_match(&regex_of(p, ci)->Some_0, x)
+}
+pub open spec fn rs_of(s: &RegexSet, pats: Seq<Seq<char>>, ci: bool) -> bool {
+    &&& regexset_len(s) == pats.len()
+    &&& forall|x: Seq<char>| #[trigger] regexset_is_match(s, x) == (exists|i: int| 0 <= i < pats.len() && pat_lang(#[trigger] pats[i], ci, x))
+    &&& forall|x: Seq<char>, i: int| 0 <= i < pats.len() ==> #[trigger] regexset_member_match(s, i, x) == pat_lang(pats[i], ci, x)
 }
 
-// RegexSetBuilder over the pattern texts of already-built regexes, with the same case flag: a member of the set
-// matches exactly when the regex it was taken from does
+pub assume_specification<I: IntoIterator<Item = S>, S: AsRef<str>>[ RegexSetBuilder::new::<I, S> ](patterns: I) -> (b: RegexSetBuilder)
+    ensures rsb_pats(b) == pattern_texts::<I>(patterns), rsb_ci(b) == false;
+pub assume_specification<'a>[ RegexSetBuilder::case_insensitive ](b: &'a mut RegexSetBuilder, yes: bool) -> (r: &'a mut RegexSetBuilder)
+    ensures rsb_pats(*final(b)) == rsb_pats(*old(b)), rsb_ci(*final(b)) == yes, *r == *final(b);
+pub assume_specification[ RegexSetBuilder::build ](b: &RegexSetBuilder) -> (r: std::result::Result<RegexSet, regex::Error>)
+    ensures r is Ok && rs_of(&r->Ok_0, rsb_pats(*b), rsb_ci(*b));
+
+// `.into_iter().map(|r| r.as_str().to_string()).collect::<Vec<_>>()`: the pattern texts of the regexes, in order (expression hole)
 #[verifier::external_body]
-pub fn build_regex_set(rs: Vec<Regex>, ci: bool) -> (r: RegexSet)
-    ensures
-        forall|x: Seq<char>| #[trigger] regexset_is_match(&r, x) == any_regex(rs@, x),
-        regexset_len(&r) == rs@.len(),
-        forall|x: Seq<char>, i: int| 0 <= i < rs@.len() ==> #[trigger] regexset_member_match(&r, i, x) == regex_is_match(&rs@[i], x),
+pub fn regex_texts(rs: Vec<Regex>) -> (r: Vec<String>)
+    ensures r@.len() == rs@.len(), forall|i: int| 0 <= i < rs@.len() ==> (#[trigger] r@[i])@ == regex_text(&rs@[i]),
 {
-    RegexSetBuilder::new(rs.into_iter().map(|r| r.as_str().to_string()).collect::<Vec<_>>())
-        .case_insensitive(ci)
-        .build()
-        .expect("could not build regex set")
+    rs.into_iter().map(|r| r.as_str().to_string()).collect::<Vec<_>>()
 }
 
 // String::to_owned (the blanket ToOwned impl carries no vstd postcondition: expression hole)
